@@ -334,6 +334,12 @@ def faults(rng, case):
         nonenum = [e for e in itf['events'] if e['dir'] == 'in' and e['_reply']['kind'] != 'enum']
         if nonenum:
             variant('mc-claim-not-enum', lambda cfg: cfg['multiclient'].__setitem__('claim', nonenum[0]['name']))
+        outs = [e for e in itf['events'] if e['dir'] == 'out']
+        if outs:
+            # a release "event" the clients cannot call: an out-event of the interface
+            variant('mc-release-is-out-event', lambda cfg: cfg['multiclient'].__setitem__('release', outs[0]['name']))
+        # contradictory: one event is to claim and to release
+        variant('mc-release-equals-claim', lambda cfg: cfg['multiclient'].__setitem__('release', cfg['multiclient']['claim']))
     # a formal typed by an enum on an MTS port
     return out
 
